@@ -127,6 +127,9 @@ def scenarios(rng):
     out.append(Scenario("blob-chunked-put", conf, base + [upload_post(repo), upload_patch(repo, "$SID%d$" % k, "0-999", state_token(0), big[:1000])],
                         upload_put(repo, "$SID%d$" % k, None, dg("sha256", big), state_token(1000), big[1000:]),
                         probes() + [blob_get(repo, dg("sha256", big))], new_blobs=[dg("sha256", big)]))
+    # content that is already stored (and referenced by the tagged image) is uploaded again through a session
+    out.append(Scenario("blob-reupload-session", conf, base + [upload_post(repo)],
+                        upload_put(repo, "$SID%d$" % k, None, dg("sha256", l1), state_token(0), l1), probes()))
     out.append(Scenario("blob-chunked-patch", conf, base + [upload_post(repo)],
                         upload_patch(repo, "$SID%d$" % k, "0-999", state_token(0), big[:1000]), probes()))
     out.append(Scenario("manifest-new-tag", conf, base + [upload_post(repo, digest=dg("sha256", l2), body=l2)], manifest_put(repo, "v2", m2, ctype=MT_OCI_M), probes(), new_blobs=[d2]))
@@ -242,8 +245,10 @@ def run(ctx):
             nlogs_unparsed += 1
             sc.steps_fs = sc.steps_fs or []
         # phase 2: one case per crash point (before call k; inside call k when it is a write)
-        for k in range(1, len(sc.log) + 1):
-            variants = [False] + ([True] if sc.log[k - 1].split(" ")[0] in ("write", "writefile") else [])
+        # (k = len + 1: the process dies right after the request was answered - nothing is refused, the new server must show the
+        #  request's effect)
+        for k in range(1, len(sc.log) + 2):
+            variants = [False] + ([True] if k <= len(sc.log) and sc.log[k - 1].split(" ")[0] in ("write", "writefile") else [])
             for partial in variants:
                 if only and only[0] is not None and (k, partial) != tuple(only):
                     continue
@@ -292,14 +297,15 @@ def run(ctx):
             files = res[nh + 4].get("files") or []
             pub = published(files)
             # correspondence with FS.v: the directory is a boundary directory
-            call = norm_log(sc.log)[k - 1]
+            after_all = k > len(sc.log)
+            call = norm_log(sc.log)[k - 1] if not after_all else "(after the last call: the request was answered)"
             torn_overwrite = partial and call.startswith("writefile ")
             # (Go map iteration makes the order of the responses a conversion generates vary from run to run: the boundary
             #  directories of the dry run are only comparable when this run made the same calls up to the crash)
             same_calls = norm_log(res[nh + 2].get("names") or [])[:k] == norm_log(sc.log)[:k]
             if not same_calls:
                 nreordered += 1
-            if same_calls and bounds_complete and pub not in bounds and not torn_overwrite and not sc.unparsed:
+            if same_calls and bounds_complete and not after_all and pub not in bounds and not torn_overwrite and not sc.unparsed:
                 near = min(bounds, key=lambda b: len(set(b.items()) ^ set(pub.items())))
                 diff = sorted(set(near.items()) ^ set(pub.items()))[:6]
                 ctx.violation("correspondence: after a crash %s call %d (%s) of %s the directory is not the directory at any protocol step boundary (coq/FS.v request_crash_is_boundary): differs from the nearest boundary in %s"
@@ -333,7 +339,9 @@ def run(ctx):
                     ctx.violation("%s: after a crash %s call %d (%s) %s answers %s" % (sc.name, "inside" if partial else "before", k, call, what, r.get("status")), dict(rep, response=str(r)[:600]), "C09:load-error")
                     bad = True
                     break
-                if p["kind"] == "blobget" and p.get("arg") in sc.new_blobs:
+                if after_all and sc.dry_status is not None and 200 <= sc.dry_status < 300:
+                    ok = g == b           # the request was acknowledged: its effect is there
+                elif p["kind"] == "blobget" and p.get("arg") in sc.new_blobs:
                     ok = g == a or g == b
                 elif p["kind"] == "mget" and p.get("arg") in sc.new_blobs:
                     ok = g == a or g == b
